@@ -217,3 +217,54 @@ func dbTypeName(p *eng.Prog, role string) string {
 	}
 	return found
 }
+
+// structFieldByType returns the name of the single field of the named struct
+// type pkg.typ whose type satisfies pred ("" if none or several).
+func structFieldByType(p *eng.Prog, pkg, typ string, pred func(types.Type) bool) string {
+	n := p.Named(pkg, typ)
+	if n == nil {
+		return ""
+	}
+	st, ok := n.Underlying().(*types.Struct)
+	if !ok {
+		return ""
+	}
+	found, cnt := "", 0
+	for i := 0; i < st.NumFields(); i++ {
+		if pred(st.Field(i).Type()) {
+			found = st.Field(i).Name()
+			cnt++
+		}
+	}
+	if cnt != 1 {
+		return ""
+	}
+	return found
+}
+
+// watcherChanField: the channel field of setec.watcher ("ready" on the pinned tree).
+func watcherChanField(p *eng.Prog) string {
+	return structFieldByType(p, setecPkg, "watcher", func(t types.Type) bool {
+		_, ok := t.Underlying().(*types.Chan)
+		return ok
+	})
+}
+
+// updaterField: fields of setec.Updater by role: "w" the watcher, "value" the
+// built value (the field of the type parameter's type), "err" the error.
+func updaterField(p *eng.Prog, role string) string {
+	switch role {
+	case "w":
+		return structFieldByType(p, setecPkg, "Updater", func(t types.Type) bool {
+			return eng.IsNamed(t, setecPkg, "watcher") || eng.IsNamed(t, setecPkg, "Watcher")
+		})
+	case "value":
+		return structFieldByType(p, setecPkg, "Updater", func(t types.Type) bool {
+			_, ok := t.(*types.TypeParam)
+			return ok
+		})
+	case "err":
+		return structFieldByType(p, setecPkg, "Updater", eng.IsErrorType)
+	}
+	return ""
+}
